@@ -81,7 +81,9 @@ def as_symseq(interp, it):
             # zip stops at the shortest; all uses in the repo zip equal-length sequences: make it an obligation-free min
             n = z3.If(lift(p.length) < lift(n), lift(p.length), lift(n))
         n = z3.simplify(n) if isinstance(n, z3.ExprRef) else n
-        return V.SymSeq(n, lambda i: tuple(p.get(i) for p in parts))
+        r = V.SymSeq(n, lambda i: tuple(p.get(i) for p in parts))
+        r.zip_parts = parts
+        return r
     if isinstance(it, V.SymMap):
         return it.keys
     if isinstance(it, MapView):
@@ -118,7 +120,9 @@ class MapView:
             return ks
         if self.kind == "values":
             return V.SymSeq(ks.length, lambda i: m.get(ks.get(i).ref))
-        return V.SymSeq(ks.length, lambda i: (ks.get(i), m.get(ks.get(i).ref)))
+        r = V.SymSeq(ks.length, lambda i: (ks.get(i), m.get(ks.get(i).ref)), distinct=ks.distinct)
+        r.key_component_distinct = ks.distinct is True
+        return r
 
 
 def seq_len(x):
@@ -197,11 +201,42 @@ def p_set(interp, x=None):
     return set_from_seq(interp, s)
 
 
+class SymIntSet:
+    """set() of a symbolic sequence of integers; only its len() is used (`len(set(first_dims)) > 1`)."""
+
+    def __init__(self, seq):
+        self.seq = seq
+
+    def sym_len(self, interp):
+        cx = interp.cx
+        s = self.seq
+        n = lift(s.length)
+        c = cx.fresh_int("ndistinct")
+        a, b = cx.fresh_int("da"), cx.fresh_int("db")
+        i, j = z3.Int("i!q"), z3.Int("j!q")
+        cx.assume(z3.And(c >= 0, c <= n, (n > 0) == (c >= 1)), tag="len(set(ints))")
+        cx.assume(z3.Implies(c > 1, z3.And(0 <= a, a < n, 0 <= b, b < n, lift(s.get(a)) != lift(s.get(b)))), tag="len(set(ints))")
+        cx.assume(z3.Implies(c <= 1, z3.ForAll([i, j], z3.Implies(z3.And(0 <= i, i < n, 0 <= j, j < n),
+                                                                     lift(s.get(i)) == lift(s.get(j))))), tag="len(set(ints))")
+        return c
+
+
 def set_from_seq(interp, s: V.SymSeq):
     cx = interp.cx
     if s.origin is not None and isinstance(s.origin, V.SymSet):
         return s.origin
+    I0 = z3.Int("I0!canon")
+    e0 = s.get(I0)
+    if isinstance(e0, (int, z3.ArithRef)):
+        return SymIntSet(s)
+    if isinstance(lift(s.length), z3.IntNumRef) and lift(s.length).as_long() == 0:
+        return set()
+    key = ("set", z3.simplify(lift(s.length)).sexpr(), e0.ref.sexpr())
+    cache = cx.ghost.setdefault("set_cache", {})
+    if key in cache:
+        return cache[key]
     S = V.SymSet(cx, "S")
+    cache[key] = S
     j = z3.Int("j!q")
     t = z3.Const("t!q", TenS)
     w = cx.fresh_func("wit", TenS, z3.IntSort())
@@ -502,8 +537,6 @@ def p_ordereddict(interp, x=None):
     s = as_symseq(interp, x)
     # sequence of (key, value) pairs with duplicate-free keys
     ks = V.SymSeq(s.length, lambda i: s.get(i)[0], distinct=getattr(s, "keys_distinct", None))
-    if ks.distinct is None:
-        ks.distinct = getattr(s, "distinct", None)
     idx = seq_index_fn(interp, ks)
     return V.SymMap(ks, lambda t: s.get(idx(t))[1])
 
@@ -584,6 +617,13 @@ class PrefixSum:
         cx.assume(z3.ForAll([j], z3.Implies(z3.And(0 <= j, j < n), self.f(j + 1) == self.f(j) + ln(j)),
                             patterns=[ln(j)]) if _has_var(ln(j), j) else z3.BoolVal(True), tag="prefix-sum")
 
+        # Lemma (proved once per run by induction, see tjv/contracts/theory.py: prefix_sum_monotone):
+        # non-negative lengths => off is monotone on [0, n]
+        nonneg = z3.ForAll([j], z3.Implies(z3.And(0 <= j, j < n), ln(j) >= 0))
+        cx.assume(z3.Implies(nonneg, z3.ForAll([i2, j], z3.Implies(z3.And(0 <= i2, i2 <= j, j <= n), self.f(i2) <= self.f(j)),
+                                               patterns=[z3.MultiPattern(self.f(i2), self.f(j))])),
+                  tag="prefix-sum-monotone (lemma proved by induction: theory.prefix_sum_monotone)")
+
     def off(self, k):
         return self.f(lift(k))
 
@@ -638,26 +678,62 @@ def symbolic_comp(interp, e, g, seq: V.SymSeq, frame, kind):
     # one Skolem evaluation: explores raise paths of the body and emits the body's obligations
     i0 = cx.fresh_int("ci")
     cx.assume(z3.And(0 <= i0, i0 < lift(seq.length)))
-    body_at(i0)
+    pos0 = cx.pos
+    r0 = body_at(i0)
+    decs = list(cx.decisions[pos0:cx.pos])
 
     def pure(i):
-        mark = len(cx.obligations)
-        r = body_at(i)
+        mark, emark, pmark = len(cx.obligations), len(cx.events), len(cx.pc)
+        cx.replay_stack.append({"decs": decs, "pos": 0})
+        cx.muted += 1
+        try:
+            r = body_at(i)
+        finally:
+            cx.muted -= 1
+            cx.replay_stack.pop()
         del cx.obligations[mark:]  # obligations of the body were already emitted on the Skolem element
         return r
 
     if kind == "list":
-        return V.SymSeq(seq.length, pure)
+        r = V.SymSeq(seq.length, pure)
+        e0 = r0
+        if isinstance(e0, tuple) and e0 and isinstance(e0[0], V.TRef) and _elem_from_distinct(seq, e0[0], i0):
+            r.keys_distinct = True
+        return r
     if kind == "set":
         s = V.SymSeq(seq.length, pure)
         return set_from_seq(interp, s)
     if kind == "dict":
-        ks = V.SymSeq(seq.length, lambda i: pure(i)[0], distinct=True if _key_is_target(e, g) and seq.distinct is True else None)
+        k0 = r0[0]
+        ok = isinstance(k0, V.TRef) and _elem_from_distinct(seq, k0, i0)
+        ks = V.SymSeq(seq.length, lambda i: pure(i)[0], distinct=True if ok else None)
         if ks.distinct is None:
-            raise Unsupported("dict comprehension whose keys are not the (duplicate-free) iteration variable")
+            raise Unsupported("dict comprehension whose keys are not elements of a duplicate-free sequence")
+        if seq.origin is not None and isinstance(k0, V.TRef) and isinstance(seq.get(i0), V.TRef) \
+                and seq.get(i0).ref.eq(k0.ref):
+            ks.origin = seq.origin
+            if hasattr(seq, "index_of"):
+                ks.index_of = seq.index_of
         idx = seq_index_fn(interp, ks)
         return V.SymMap(ks, lambda t: pure(idx(t))[1])
     raise Unsupported(kind)
+
+
+def _elem_from_distinct(seq, k0, I0):
+    """k0 = key produced at the (Skolem) index I0: is it the I0-th element of a duplicate-free sequence?"""
+    cands = [seq] + list(getattr(seq, "zip_parts", []))
+    for c in cands:
+        try:
+            e = c.get(I0)
+        except Exception:
+            continue
+        if isinstance(e, tuple):
+            if getattr(c, "key_component_distinct", False) and isinstance(e[0], V.TRef) and e[0].ref.eq(k0.ref):
+                return True
+            continue
+        if isinstance(e, V.TRef) and c.distinct is True and e.ref.eq(k0.ref):
+            return True
+    return False
 
 
 def _key_is_target(e, g):
@@ -680,6 +756,10 @@ def _num(x):
 
 
 def binop(interp, op, a, b, inplace=False):
+    if isinstance(a, V.Opt):
+        a = a.value
+    if isinstance(b, V.Opt):
+        b = b.value
     if isinstance(a, (ATen,)) or isinstance(b, (ATen,)):
         return aten_binop(interp, op, a, b, inplace)
     if isinstance(a, LTen) or isinstance(b, LTen):
@@ -851,6 +931,10 @@ def compare(interp, op, a, b):
             r = a is b
             return (not r) if neg else r
         raise Unsupported("`is` on symbolic values")
+    if isinstance(a, V.Opt):
+        a = a.value
+    if isinstance(b, V.Opt):
+        b = b.value
     if isinstance(a, ATen) or isinstance(b, ATen):
         return aten_compare(interp, op, a, b)
     if isinstance(a, LTen) or isinstance(b, LTen):
